@@ -1,3 +1,4 @@
+import PedalProofs.MergeIRLemmas
 import PedalProofs.C02
 /-
 C03 — the final score follows the documented valence/trigger arithmetic.
